@@ -12,16 +12,16 @@ PINS = {
     'IntegrityProtectedSKEDataV1.encrypt': '4df5ab8ae79378603272ea3f',
     'IntegrityProtectedSKEDataV1.decrypt': 'c1eef8049b8ffe1ad67ce1bf',
     'IntegrityProtectedSKEDataV1.parse': '7313873e82d7a82875d76086',
-    'PKESessionKeyV3.decrypt_sk': '5621f0773b0d485b3279c3d8',
+    'PKESessionKeyV3.decrypt_sk': 'c8ce9e5a48f5e27ec01ba43d',
     'PKESessionKeyV3.encrypt_sk': '170b82b3f5926811069a2a6f',
     'PKESessionKeyV3.parse': '2ebb141c0279b42d3965c734',
     'PKESessionKeyV3.__bytearray__': 'ae69825ee724d90a44ad50fd',
     'SKESessionKeyV4.decrypt_sk': '1bdcb446948494be46277a26',
-    'SKESessionKeyV4.encrypt_sk': 'cd6d3ea21bc64a96038f4452',
+    'SKESessionKeyV4.encrypt_sk': 'b931304baacff28793bd0cfc',
     'SKESessionKeyV4.parse': 'b693f5bedd43ab24ef629ffb',
     'SKESessionKeyV4.__bytearray__': '5f82409f33885931c5caa023',
     'ECDHCipherText.encrypt': '74f84571eafeb26b7c44eac2',
-    'ECDHCipherText.decrypt': 'e014e6f71ef8822bef54c22b',
+    'ECDHCipherText.decrypt': 'ed89c5195aba6a28431762cb',
     'ECDHCipherText.parse': '64e4e6f68be5da26857ebd24',
     'ECDHCipherText.__bytearray__': '20a86d80d83d860a4ad6ce8b',
     'ECKDF.derive_key': '0c2ea4e81db014fbad941244',
@@ -29,7 +29,7 @@ PINS = {
     'ECPoint.to_mpibytes': '2e1306746da0de297966a81d',
     'PGPMessage.decrypt': 'd6e757fd7a8153ea518d3485',
     'PGPMessage.encrypt': '9fd8589aa9549f4186bfec06',
-    'PGPKey.decrypt': '401d7682f370ac0625f47b4e',
+    'PGPKey.decrypt': '632acde6a7851a51f39912d5',
     'PGPKey.encrypt': '0bde8025c0998a6ef6798f8e',
     'symenc._encrypt': '2a8698e9a5b631f1b45c3714',
     'symenc._decrypt': 'f211257329e77dcce50ee7cd',
@@ -436,10 +436,11 @@ class World:
                     d = em.decrypt(r[1])
                 else:
                     d = self.keys[r[1]].decrypt(em)
-                    if d is em and not enc_in_blob:
+                    if d is em and not enc_in_blob and not em._sessionkeys:
                         raise NotEncryptedReturned()
-                    # (the input DID carry an encrypted data packet, yet PGPKey.decrypt handed the object back with only a
-                    #  "not encrypted" warning: whatever content it now shows is what the caller takes for the plaintext)
+                    # (otherwise the input DID carry an encrypted data packet or session key packets -- a message cut short --
+                    #  yet PGPKey.decrypt handed the object back with only a "not encrypted" warning: whatever content it now
+                    #  shows is what the caller takes for the plaintext.  Session key packets without data are PGPError.)
                 return ('ok', canon_plain(d))
             except Exception as ex:
                 return ('raise', type(ex).__name__, 'decrypt')
@@ -469,7 +470,7 @@ class World:
 
 
 class NotEncryptedReturned(Exception):
-    """PGPKey.decrypt handed the input object back (message without encrypted data): nothing was decrypted"""
+    """PGPKey.decrypt handed the input object back (message with neither session keys nor encrypted data): nothing was decrypted"""
 
 
 # ------------------------------------------------------------------ the run
@@ -509,6 +510,38 @@ class _StubRSA:
     def encrypt(self, m, pad):
         self.seen = bytes(m)
         return b'\x01' + bytes(self.key_size // 8 - 1)
+
+
+def ref_unpad(m):
+    """PKCS#5 read side, written independently: the unpadded string or None"""
+    if not m or not 1 <= m[-1] <= len(m) or m[-m[-1]:] != bytes([m[-1]]) * m[-1]:
+        return None
+    return bytes(m[:-m[-1]])
+
+
+def make_unpad_impl(w):
+    """ECDHCipherText.decrypt run on a chosen unwrapped string: a real ECDH recipient key and a real ephemeral point (so that the
+    exchange and the KDF in front run as they are), pgpy.packet.fields.aes_key_unwrap replaced by a stub for the duration of the
+    call.  Returns f(octets) -> wire hex of what decrypt returns (or raises what decrypt raises); None when no ECDH key is there"""
+    from pgpy.packet import fields as F
+    kn = next((k for k in ('ed25519', 'p256', 'ed25519b', 'p384', 'secp256k1', 'p521') if k in w.keys), None)
+    if kn is None:
+        return None
+    with warnings.catch_warnings():
+        warnings.simplefilter('ignore')
+        m = w.pgpy.PGPMessage.new(b'unpad', compression=w.Z.Uncompressed)
+    e = w.impl_encrypt(m, [('K', kn)], 9, None)
+    ct = e._sessionkeys[0].ct
+    pk = enc_target(w, kn)._key
+
+    def unpad(octets):
+        real = F.aes_key_unwrap
+        F.aes_key_unwrap = lambda z, c, backend=None, octets=bytes(octets): octets
+        try:
+            return hx(bytes(ct.decrypt(pk)))
+        finally:
+            F.aes_key_unwrap = real
+    return unpad
 
 
 def unit_suites(ctx, w):
@@ -693,7 +726,9 @@ def unit_suites(ctx, w):
         ctx.expect_eq('seipd-encrypt', 'plaintext layout is not RFC 4880 5.13', case, hx(pt), d.call('rfc_seipd_plain', hx(iv), bs, hx(data)))
         ctx.expect_eq('seipd-encrypt', 'model layout is not RFC 4880 5.13', case, d.call('seipd_plain', hx(iv), hx(data)), d.call('rfc_seipd_plain', hx(iv), bs, hx(data)))
 
-    # ---- PKCS#5 padding against the library PGPy calls, every length 0..48 and damaged paddings
+    # ---- PKCS#5: padding against the library PGPy's sender calls, every length 0..48; unpadding = the last lines of
+    #      ECDHCipherText.decrypt run on chosen octets (fields.aes_key_unwrap replaced by a stub), damaged paddings, and the
+    #      RFC 6637 section 8 padding to 40 octets for every length 0..39
     from cryptography.hazmat.primitives.padding import PKCS7
     for n in range(0, 49):
         m = bytes(rng.randrange(256) for _ in range(n))
@@ -702,21 +737,42 @@ def unit_suites(ctx, w):
         ctx.case('pkcs5', ('pad', n), sample={'m': m.hex(), 'lib': lib.hex()})
         ctx.expect_eq('pkcs5', 'PKCS7(64) padder differs from model', {'op': 'pad', 'm': m.hex()}, hx(lib), mp)
         ctx.expect_eq('pkcs5', 'padding is not RFC 6637 section 8', {'op': 'pad', 'm': m.hex()}, hx(lib), rp)
-    for i in range(ctx.n(300, 3000)):
-        n = rng.choice([0, 1, 7, 8, 9, 16, 24, 40, 48, rng.randrange(50)])
-        m = bytearray(rng.randrange(256) for _ in range(n))
-        if n and i % 2:
-            k = rng.randrange(0, 12)
-            m[-min(k, n):] = bytes([k]) * min(k, n) if k else m[-0:]
-            if i % 7 == 0 and n > 1:
-                m[-rng.randrange(1, min(n, 9) + 1)] ^= 1 << rng.randrange(8)
-        def unpad(x):
-            u = PKCS7(64).unpadder()
-            return hx(u.update(bytes(x)) + u.finalize())
-        o = outcome(unpad, m)
-        ctx.case('pkcs5', ('unpad', bytes(m)), nontrivial=o[0] == 'ok')
-        ctx.expect_eq('pkcs5', 'PKCS7(64) unpadder differs from model', {'op': 'unpad', 'm': bytes(m).hex()},
-                      o[1] if o[0] == 'ok' else 'ERR', d.call('unpad', hx(m)))
+    unpad_impl = make_unpad_impl(w)
+    if unpad_impl is None:
+        ctx.skipped.append('pkcs5 unpadding: no ECDH key available to run ECDHCipherText.decrypt')
+    else:
+        def unpad_case(m, what):
+            m = bytes(m)
+            o = outcome(unpad_impl, m)
+            case = {'op': 'unpad', 'm': m.hex()}
+            ctx.case('pkcs5', ('unpad', m), nontrivial=o[0] == 'ok', sample=dict(case, impl=repr(o)[:80], kind=what))
+            ctx.expect_eq('pkcs5', 'unpadding in ECDHCipherText.decrypt differs from model', case,
+                          ('ok ' + o[1]) if o[0] == 'ok' else ('raise ' + o[1]), d.call('ecdh_unpad', hx(m)))
+            ref = ref_unpad(m)
+            if (o[0] == 'ok') != (ref is not None) or (ref is not None and o[1] != hx(ref)):
+                ctx.fail('pkcs5', 'ECDHCipherText.decrypt unpads against PKCS#5 (n >= 1 octets of value n, RFC 6637 section 8)', dict(case, impl=repr(o)[:80]))
+            elif ref is None and m and o[1] != 'PGPDecryptionError':
+                ctx.fail('pkcs5', 'a malformed padding leaves ECDHCipherText.decrypt as %s, not PGPDecryptionError' % o[1], case)
+            return o
+        for i in range(ctx.n(300, 3000)):
+            n = rng.choice([0, 1, 7, 8, 9, 16, 24, 40, 48, rng.randrange(50)])
+            m = bytearray(rng.randrange(256) for _ in range(n))
+            if n and i % 2:
+                k = rng.choice([rng.randrange(0, 12), rng.randrange(0, 12), rng.randrange(0, n + 3), n, n + 1])
+                m[-min(k, n):] = bytes([k % 256]) * min(k, n) if k else m[-0:]
+                if i % 7 == 0 and n > 1:
+                    m[-rng.randrange(1, min(n, 9) + 1)] ^= 1 << rng.randrange(8)
+            unpad_case(m, 'random / damaged')
+        for n in range(0, 40):
+            m = bytes(rng.randrange(256) for _ in range(n))
+            want40 = m + bytes([40 - n]) * (40 - n)
+            mp, rp = d.call('pad40', hx(m)).split(' ')
+            ctx.expect_eq('pkcs5', 'model padding to 40 octets is not m || (40 - len) x (40 - len)', {'op': 'pad40', 'm': m.hex()}, hx(want40), mp)
+            ctx.expect_eq('pkcs5', 'transcription of the RFC 6637 section 8 padding to 40 octets is not m || (40 - len) x (40 - len)', {'op': 'pad40', 'm': m.hex()}, hx(want40), rp)
+            o = unpad_case(want40, 'padded to 40')
+            if o != ('ok', hx(m)):
+                ctx.fail('pkcs5', 'a block padded to 40 octets (RFC 6637 section 8) is not given back', {'op': 'unpad', 'm': want40.hex(), 'impl': repr(o)[:80]})
+        ctx.exhaustive.append('RFC 6637 section 8 padding to 40 octets: every block length 0..39 through the unpadding of ECDHCipherText.decrypt')
 
     # ---- RFC 6637 parameter block + KDF: ECKDF.derive_key vs model (hashlib through the oracle) vs transcription
     for name, k in w.keys.items():
@@ -917,46 +973,55 @@ def ecdh_point_suite(ctx, w):
 
 
 def sessionkey_length_suite(ctx, w):
-    """caller-supplied session keys whose length is not the key size of the cipher: a key recipient must be refused at
-    encryption time (PGPEncryptionError; the model's pkesk_encrypt refuses too); a passphrase recipient carries the key
-    verbatim, so whatever the cipher family accepts must round-trip (also through the independent decryptor)"""
+    """caller-supplied session keys whose length is not the key size of the cipher are refused at encryption time on BOTH paths
+    (PGPEncryptionError; the model's pkesk_encrypt / skesk_encrypt refuse too): a key recipient could never slice the key back, and
+    a passphrase message would be keyed with a key that does not fit the cipher it names.  The right length is accepted and round-trips"""
     pgpy, d, rng = w.pgpy, w.d, ctx.rng
     with warnings.catch_warnings():
         warnings.simplefilter('ignore')
         m = pgpy.PGPMessage.new(b'session key length', compression=w.Z.Uncompressed)
     inner = bytes(m.__bytes__())
     want = canon_plain(m)
-    for alg, n in ((9, 16), (9, 24), (9, 0), (9, 31), (9, 33), (7, 15), (7, 32), (8, 16), (2, 16), (13, 16), (3, 8)):
+    r = ('P', 'pw', 8, 16)
+    pdesc = model_recipient(w, r, bytes(8))
+    for alg, n in ((9, 16), (9, 24), (9, 0), (9, 31), (9, 33), (7, 15), (7, 32), (8, 16), (2, 16), (13, 16), (3, 8), (9, 32), (7, 16), (2, 24)):
         if alg not in w.ciphers:
             continue
+        right = n == KEYLEN[alg]
         sk = bytes(rng.randrange(256) for _ in range(n))
         for kn in [k for k in ('rsa2048', 'ed25519', 'p256') if k in w.keys]:
             o = outcome(w.impl_encrypt, m, [('K', kn)], alg, sk)
             case = {'op': 'sklen', 'alg': alg, 'n': n, 'key': kn}
-            ctx.case('sessionkey-length', (alg, n, kn), nontrivial=False, sample=dict(case, impl=repr(o)[:60]))
-            if o[0] != 'raise':
-                ctx.fail('sessionkey-length', 'PGPKey.encrypt accepted a session key nobody can decrypt with', case)
+            ctx.case('sessionkey-length', (alg, n, kn), nontrivial=right, sample=dict(case, impl=repr(o)[:60]))
             mo = d.call('enc_msg', hn(alg), hx(sk), hx(bytes(BLOCK[alg])), hx(inner), 'K,' + keydesc1(enc_target(w, kn)))
-            if not mo.startswith('raise'):
-                ctx.fail('sessionkey-length', 'model encrypt_to accepted a session key of the wrong length', dict(case, model=mo[:60]))
-        r = ('P', 'pw', 8, 16)
+            if right:
+                if o[0] != 'ok' or not mo.startswith('ok '):
+                    ctx.fail('sessionkey-length', 'a session key of the right length is refused for a key recipient', dict(case, impl=repr(o)[:60], model=mo[:60]))
+                continue
+            if o[:2] != ('raise', 'PGPEncryptionError'):
+                ctx.fail('sessionkey-length', 'PGPKey.encrypt accepted a session key nobody can decrypt with', dict(case, impl=repr(o)[:60]))
+            ctx.expect_eq('sessionkey-length', 'model encrypt_to and PGPKey.encrypt disagree on a session key of the wrong length', case,
+                          'raise ' + o[1] if o[0] == 'raise' else 'ok', mo if mo.startswith('raise') else 'ok')
         o = outcome(w.impl_encrypt, m, [r], alg, sk)
         case = {'op': 'sklen', 'alg': alg, 'n': n, 'key': 'passphrase'}
         ctx.case('sessionkey-length', (alg, n, 'P'), nontrivial=o[0] == 'ok', sample=dict(case, impl=repr(o)[:60]))
-        try:
-            cfb(alg, sk, b'x', True)
-            usable = True
-        except Exception:
-            usable = False
-        if (o[0] == 'ok') != usable:
-            ctx.fail('sessionkey-length', 'PGPMessage.encrypt and the cipher family disagree on a session key length', dict(case, impl=repr(o)[:100]))
-        if o[0] == 'ok':
-            raw = bytes(o[1].__bytes__())
-            if w.impl_decrypt(raw, r) != ('ok', want):
-                ctx.fail('sessionkey-length', 'passphrase message with an unusual session key length does not round-trip', dict(case, blob=raw.hex()))
-            mo = w.model_decrypt(raw, r)
-            if not (mo.startswith('ok ') and unhx(mo[3:]) == inner):
-                ctx.fail('sessionkey-length', 'independent decryptor disagrees on a passphrase message with an unusual session key length', dict(case, blob=raw.hex(), model=mo[:80]))
+        mo = d.call('enc_msg', hn(alg), hx(sk), hx(bytes(BLOCK[alg])), hx(inner), pdesc)
+        ctx.expect_eq('sessionkey-length', 'model encrypt_to and PGPMessage.encrypt disagree on a caller-supplied session key', case,
+                      'raise ' + o[1] if o[0] == 'raise' else 'ok', mo if mo.startswith('raise') else 'ok')
+        if not right:
+            if o[:2] != ('raise', 'PGPEncryptionError'):
+                ctx.fail('sessionkey-length', 'PGPMessage.encrypt accepted a session key whose length is not the key size of the cipher it names',
+                         dict(case, impl=repr(o)[:100]))
+            continue
+        if o[0] != 'ok':
+            ctx.fail('sessionkey-length', 'PGPMessage.encrypt refused a session key of the right length', dict(case, impl=repr(o)[:100]))
+            continue
+        raw = bytes(o[1].__bytes__())
+        if w.impl_decrypt(raw, r) != ('ok', want):
+            ctx.fail('sessionkey-length', 'passphrase message with a caller-supplied session key does not round-trip', dict(case, blob=raw.hex()))
+        md = w.model_decrypt(raw, r)
+        if not (md.startswith('ok ') and unhx(md[3:]) == inner):
+            ctx.fail('sessionkey-length', 'independent decryptor disagrees on a passphrase message with a caller-supplied session key', dict(case, blob=raw.hex(), model=md[:80]))
 
 
 def regressions(ctx, w):
@@ -978,12 +1043,28 @@ def regressions(ctx, w):
             if o != ('ok', want):
                 ctx.fail('regression', 'C03/mixed-recipients-attributeerror is back: a recipient of a mixed passphrase+key message cannot decrypt',
                          {'op': 'roundtrip', 'blob': raw.hex(), 'recipient': list(r), 'want': want, 'impl': repr(o)[:200]})
-    # C03/sessionkey-length-unchecked: 16-octet key under AES-256 to a key recipient
+    # C03/sessionkey-length-unchecked: 16-octet key under AES-256 to a key recipient, and (repair 29ef9ad) to a passphrase recipient
     for kn in [k for k in ('rsa2048', 'ed25519') if k in w.keys]:
         ctx.case('regression', ('sklen', kn))
         o = outcome(w.impl_encrypt, m, [('K', kn)], 9, bytes(16))
         if o[0] != 'raise':
             ctx.fail('regression', 'C03/sessionkey-length-unchecked is back: a 16-octet session key is accepted for AES-256', {'op': 'sklen', 'alg': 9, 'n': 16, 'key': kn})
+    ctx.case('regression', ('sklen', 'passphrase'))
+    o = outcome(w.impl_encrypt, m, [('P', 'pw', 8, 16)], 9, bytes(16))
+    if o[:2] != ('raise', 'PGPEncryptionError'):
+        ctx.fail('regression', 'a 16-octet session key is passphrase-encrypted under the AES-256 identifier', {'op': 'sklen', 'alg': 9, 'n': 16, 'key': 'passphrase'})
+    # copies of an encrypted message (repairs 66ae54a, fae38ee): same octets, still decrypts
+    import copy as _copy
+    for recips in ([('K', 'ed25519')], [('K', 'p256'), ('P', 'pw', 8, 16)], [('K', 'rsa2048')]):
+        if not all(r[0] == 'P' or r[1] in w.keys for r in recips):
+            continue
+        e = w.impl_encrypt(m, recips, 7, None)
+        raw = bytes(e.__bytes__())
+        ctx.case('regression', ('copy', tuple(recips)))
+        o = outcome(lambda: bytes(_copy.copy(e).__bytes__()))
+        if o != ('ok', raw):
+            ctx.fail('regression', 'a copy of an encrypted message is written with different octets',
+                     {'op': 'copy', 'recips': [list(r) for r in recips], 'impl': (o[1].hex() if o[0] == 'ok' else repr(o))[:300], 'orig': raw.hex()[:300]})
 
 
 def model_recipient(w, r, salt=None):
@@ -1053,7 +1134,15 @@ def encryptor_suite(ctx, w):
                 parts.append(d.call('skesk_gen', hn(outer), hn(alg), hn(ty), hn(r[2]), hx(salt), hn(r[3]), hx(r[1].encode()), hx(sk)))
             recips = [r]
             kn = rng.choice(list(w.keys))
-            parts.append(d.call('pkesk', keydesc1(enc_target(w, kn)), hn(alg), hx(sk)))
+            tgt = enc_target(w, kn)
+            if int(tgt.key_algorithm) == 18 and (i // 5) % 3 != 2:
+                # an RFC 6637 sender that hides the key size: m padded to 40 octets (sometimes 48) before the key wrap
+                total = 40 if (i // 5) % 3 == 0 else 48
+                parts.append(d.call('pkesk_to', total, keydesc1(tgt), hn(alg), hx(sk)))
+                case['ecdh_padded_to'] = total
+                ctx.dist['independent-encryptor:ecdh-m-padded-to-%d' % total] = ctx.dist.get('independent-encryptor:ecdh-m-padded-to-%d' % total, 0) + 1
+            else:
+                parts.append(d.call('pkesk', keydesc1(tgt), hn(alg), hx(sk)))
             recips.append(('K', kn))
             parts.append(d.call('seipd_packet', hn(alg), hx(sk), hx(iv), hx(inner)))
             case['recips'] = [list(x) for x in recips]
@@ -1166,11 +1255,19 @@ def replay(ctx, case):
                 warnings.simplefilter('ignore')
                 m = w.pgpy.PGPMessage.new(b'session key length', compression=w.Z.Uncompressed)
             sk = bytes(case['n'])
-            if case['key'] == 'passphrase':
-                r = ('P', 'pw', 8, 16)
-                o = outcome(w.impl_encrypt, m, [r], case['alg'], sk)
-                return o[0] == 'ok' and w.impl_decrypt(bytes(o[1].__bytes__()), r) != ('ok', canon_plain(m))
-            return outcome(w.impl_encrypt, m, [('K', case['key'])], case['alg'], sk)[0] != 'raise'
+            right = case['n'] == KEYLEN[case['alg']]
+            r = ('P', 'pw', 8, 16) if case['key'] == 'passphrase' else ('K', case['key'])
+            o = outcome(w.impl_encrypt, m, [r], case['alg'], sk)
+            if not right:
+                return o[:2] != ('raise', 'PGPEncryptionError')
+            return o[0] != 'ok' or w.impl_decrypt(bytes(o[1].__bytes__()), r) != ('ok', canon_plain(m))
+        if op == 'copy':
+            import copy as _copy
+            with warnings.catch_warnings():
+                warnings.simplefilter('ignore')
+                m = w.pgpy.PGPMessage.new(b'regression', compression=w.Z.Uncompressed)
+            e = w.impl_encrypt(m, [tuple(r) for r in case['recips']], 7, None)
+            return outcome(lambda: bytes(_copy.copy(e).__bytes__())) != ('ok', bytes(e.__bytes__()))
         if op == 'pkesk_open':
             m = bytes.fromhex(case['m'])
             stub = _StubRSA(m); p = PKESessionKeyV3(); p.pkalg = 1; p.ct.me_mod_n = MPI(12345)
@@ -1203,16 +1300,22 @@ def replay(ctx, case):
             cnt = (16 + (case['count'] & 15)) << ((case['count'] >> 4) + 6)
             r = outcome(s2k_rfc, kind, case['hash'], bytes.fromhex(case['salt']) if kind else b'', cnt, KEYLEN[case['alg']], bytes.fromhex(case['pass']))
             return o[0] != r[0] or (o[0] == 'ok' and o[1] != r[1])
-        if op in ('pad', 'unpad'):
+        if op in ('pad', 'unpad', 'pad40'):
             from cryptography.hazmat.primitives.padding import PKCS7
             m = bytes.fromhex(case['m'])
             if op == 'pad':
                 p = PKCS7(64).padder(); n = 8 - len(m) % 8
                 return p.update(m) + p.finalize() != m + bytes([n]) * n
-            u = PKCS7(64).unpadder()
-            o = outcome(lambda: u.update(m) + u.finalize())
-            ok = len(m) > 0 and len(m) % 8 == 0 and 1 <= m[-1] <= 8 and m[-m[-1]:] == bytes([m[-1]]) * m[-1]
-            return (o[0] == 'ok') != ok or (ok and o[1] != m[:-m[-1]])
+            f = make_unpad_impl(w)
+            if f is None:
+                return True
+            if op == 'pad40':
+                m = m + bytes([40 - len(m)]) * (40 - len(m))
+            o = outcome(f, m)
+            ref = ref_unpad(m)
+            if ref is None:
+                return o[0] != 'raise' or (len(m) > 0 and o[1] != 'PGPDecryptionError')
+            return o != ('ok', hx(ref))
         if op == 'tables':
             a = case['alg']
             ks = {1: 128, 2: 192, 3: 128, 4: 128, 7: 128, 8: 192, 9: 256, 10: 256, 11: 128, 12: 192, 13: 256}
